@@ -301,6 +301,22 @@ def _fut_set_running(eng, st, self_v, args, kwargs, node):
 
 c = S.ext("Future.cancelled", cite="Future.cancelled(): whether the future is cancelled right now (volatile: the owner may cancel a pending future at any time)")
 c.param("self", T.Ref("Future")).returns(T.Bool).event("fut_cancelled", "self", "result").modifies()
+@_impl("Future.cancel", cite="Future.cancel(): True and CANCELLED (not yet notified) iff the future was pending or already cancelled; False once it is running or finished")
+def _fut_cancel(eng, st, self_v, args, kwargs, node):
+    from pyvc.values import fresh_name
+    ok = z3.Bool(fresh_name("cancelled"))
+    running = z3.Select(st.ghost_get("fut_running"), self_v.t)
+    done = z3.Select(st.ghost_get("fut_n_exc"), self_v.t) + z3.Select(st.ghost_get("fut_n_res"), self_v.t) >= 1
+    st.assume(z3.Implies(z3.Or(running, done), z3.Not(ok)))
+    out = []
+    for b, s in eng.branch(st, ok):
+        s.emit("fut_cancel", [self_v, VBool(b)], eng.site(node))
+        out.append(eng.val(s, VBool(b)))
+    return out
+
+
+c = S.ext("inspect.isroutine", cite="inspect.isroutine(obj): functions, methods, builtins; False for callable instances and functools.partial objects")
+c.param("obj", T.Obj).returns(T.Bool).modifies()
 c = S.ext("Future", cite="Future(): a new pending future")
 c.returns(T.Ref("Future"), fresh=True).modifies()
 S.classes["Future"].module = "loky._base"
